@@ -444,16 +444,24 @@ impl Store {
         let t0 = std::time::Instant::now();
         let mut spins = 0u32;
         let mut last_alive_check = 0u128;
+        let mut not_seen_since: Option<u128> = None;
         while !self.idle() {
             let el = t0.elapsed().as_millis();
             if el as u64 > timeout_ms {
                 return false;
             }
-            // no flush-worker thread left in this process: nothing will ever process the queue
+            // no flush-worker thread left in this process: nothing will ever process the queue. (A thread that was just
+            // spawned carries its name only once it runs, which can take a while on a loaded machine: the conclusion
+            // needs 3 s of consecutive negative checks.)
             if el >= last_alive_check + 50 {
                 last_alive_check = el;
-                if !trace::any_worker_thread_alive() {
-                    return self.idle();
+                if trace::any_worker_thread_alive() {
+                    not_seen_since = None;
+                } else {
+                    let since = *not_seen_since.get_or_insert(el);
+                    if el - since >= 3000 {
+                        return self.idle();
+                    }
                 }
             }
             spins += 1;
